@@ -12,6 +12,7 @@ import (
 	"fmt"
 	"runtime"
 	"strconv"
+	"strings"
 	"sync"
 	"time"
 
@@ -252,14 +253,14 @@ func (s *Sched) Run() (res Result) {
 			}
 			if time.Since(waited) > 20*time.Second {
 				s.mu.Lock()
-				msg := fmt.Sprintf("scheduler stall: a released goroutine did not reach its next hook (expected=%d)", s.expected)
+				msg := fmt.Sprintf("a goroutine that the schedule had released did not reach its next synchronisation operation within 20 s: it is blocked in something the announced operations do not cover (expected=%d)", s.expected)
 				for _, g := range s.gs {
 					msg += fmt.Sprintf("\n  %s state=%d kind=%s phase=%d", g.Name, g.state, kindNames[g.kind], g.phase)
 				}
 				s.mu.Unlock()
 				buf := make([]byte, 1<<16)
 				n := runtime.Stack(buf, true)
-				panic(core.HarnessError{Msg: msg + "\n" + string(buf[:n])})
+				panic(core.LibraryHang{Msg: msg + "\n" + trimDump(string(buf[:n]))})
 			}
 		}
 		s.mu.Lock()
@@ -378,4 +379,21 @@ func (s *Sched) Install() func() {
 			installMu.Unlock()
 		})
 	}
+}
+
+// trimDump keeps the goroutines of a stack dump that are inside the library
+func trimDump(dump string) string {
+	var keep []string
+	for _, g := range strings.Split(dump, "\n\n") {
+		if strings.Contains(g, "go-collection-framework") {
+			if len(g) > 1500 {
+				g = g[:1500] + " ..."
+			}
+			keep = append(keep, g)
+		}
+	}
+	if len(keep) > 4 {
+		keep = keep[:4]
+	}
+	return strings.Join(keep, "\n\n")
 }
